@@ -175,7 +175,7 @@ def random_cases(draw):
 def plan(tier, seed):
     nshards = 16
     max_nodes = QUICK_N if tier == "quick" else THOROUGH_N
-    examples = 150 if tier == "quick" else 2000
+    examples = 300 if tier == "quick" else 2000
     tasks = [{"engine": "enum", "max_nodes": max_nodes, "index": i, "count": nshards * 4} for i in range(nshards * 4)]
     tasks += [{"engine": "hyp", "examples": examples, "seed": seed * 1000 + i} for i in range(nshards)]
     return tasks
